@@ -308,6 +308,10 @@ def run(ctx):
         c02b(ctx, tu)
         from rules import C14
         C14.c14g(ctx, tu)   # "newest first" is the list order: insertion at the front, and moves (movable mocks) keep the order
+        # what a step that has happened leaves in front of later candidates is their cost: a matched call / a watched
+        # destruction retires its predecessors and, once saturated, itself (the step protocol of both consumers)
+        from rules import protocol
+        protocol.report(ctx, tu, lambda r: True)
         n += c02d(ctx, tu)
         units.append({"unit": tu.name, "functions": len(tu.fns)})
     ctx.floor("C02.d MAKE_MOCK routing instances", n, 20)
